@@ -626,6 +626,9 @@ func (t *tr) selectStmt(s *ast.SelectStmt) ast.Stmt {
 	def := "false"
 	if hasDefault {
 		def = "true"
+	} else {
+		// keeps the statement terminating when the select was (Go's rule for switch needs a default clause)
+		clauses = append(clauses, &ast.CaseClause{List: nil, Body: []ast.Stmt{&ast.ExprStmt{X: &ast.CallExpr{Fun: ast.NewIdent("panic"), Args: []ast.Expr{&ast.BasicLit{Kind: token.STRING, Value: `"gosim: select returned an impossible case"`}}}}}})
 	}
 	args := append([]ast.Expr{ast.NewIdent(def)}, caseVars...)
 	sw := ast.Stmt(&ast.SwitchStmt{Tag: t.call("Select", args...), Body: &ast.BlockStmt{List: clauses}})
